@@ -8,6 +8,9 @@ pub trait MaybeNan: Sized {
     // None exactly for a missing value, otherwise a reference to the not-NaN value it carries
     fn try_as_not_nan(&self) -> (r: Option<&Self::NotNan>)
         ensures self.is_nan_spec() <==> r is None, r matches Some(x) ==> *x == self.not_nan_spec();
+    // a reference to the missing value for None, otherwise to the value that carries the given not-NaN value
+    fn from_not_nan_ref_opt(v: Option<&Self::NotNan>) -> (r: &Self)
+        ensures v is None ==> r.is_nan_spec(), v matches Some(x) ==> !r.is_nan_spec() && r.not_nan_spec() == *x;
 }
 
 // R19: the items a fold / for_each visits.  ndarray's `fold` / `for_each` on an array: every element exactly once, in an
@@ -38,4 +41,148 @@ pub open spec fn skip_step_idx<'a, A: MaybeNan, P, B, F: FnMut(B, (P, &'a A::Not
 }
 pub open spec fn visit_step<'a, A: MaybeNan, F: FnMut(&'a A::NotNan)>(f: F, e: A) -> bool where A::NotNan: 'a {
     e.is_nan_spec() || exists|x: &'a A::NotNan| *x == e.not_nan_spec() && call_ensures(f, (x,), ())
+}
+
+// R17: `a.min(b)` / `a.max(b)` on references (std: the first argument when equal for min, the second for max) - A-STD
+pub trait VerifMinMax: Sized { spec fn min_spec(self, o: Self) -> Self; spec fn max_spec(self, o: Self) -> Self;
+    fn verif_min(self, o: Self) -> (r: Self) ensures r == self.min_spec(o);
+    fn verif_max(self, o: Self) -> (r: Self) ensures r == self.max_spec(o); }
+impl<'a, T: Ord> VerifMinMax for &'a T {
+    open spec fn min_spec(self, o: Self) -> Self { if (*self).cmp_spec(o) == Ordering::Greater { o } else { self } }
+    open spec fn max_spec(self, o: Self) -> Self { if (*self).cmp_spec(o) == Ordering::Greater { self } else { o } }
+    #[verifier::external_body]
+    fn verif_min(self, o: Self) -> (r: Self) { unimplemented!() }
+    #[verifier::external_body]
+    fn verif_max(self, o: Self) -> (r: Self) { unimplemented!() }
+}
+// the running minimum (d = false) / maximum (d = true) over the not-NaN values seen so far
+pub open spec fn ext_val<T: Ord>(d: bool, acc: Option<T>, x: T) -> T {
+    match acc { Some(a) => if d { if a.cmp_spec(&x) == Ordering::Greater { a } else { x } } else { if a.cmp_spec(&x) == Ordering::Greater { x } else { a } }, None => x }
+}
+pub open spec fn dle<T: Ord>(d: bool, a: T, b: T) -> bool { if d { le(b, a) } else { le(a, b) } }
+// `x` is an acceptable new extremum of the accumulator `acc` and the element `e`: one of the two, chosen by a comparison of
+// the two (either way round, either tie rule) - stated with raw comparison results so that no order law is needed to check it
+pub open spec fn gt<T: Ord>(a: T, b: T) -> bool { a.cmp_spec(&b) == Ordering::Greater }
+pub open spec fn ext_rel<T: Ord>(d: bool, acc: Option<T>, e: T, x: T) -> bool {
+    match acc {
+        None => x == e,
+        Some(a) => if d { (x == a && (!gt(e, a) || gt(a, e))) || (x == e && (!gt(a, e) || gt(e, a))) }
+                   else { (x == a && (!gt(a, e) || gt(e, a))) || (x == e && (!gt(e, a) || gt(a, e))) },
+    }
+}
+pub open spec fn opt_val<'a, T>(o: Option<&'a T>) -> Option<T> { match o { Some(x) => Some(*x), None => None } }
+// induction over the trace of a skip-NaN fold whose step keeps the extremum
+pub proof fn lemma_ext_trace<A: MaybeNan>(d: bool, items: Seq<A>, accs: Seq<Option<A::NotNan>>, k: int)
+    where A::NotNan: Ord
+    requires lawful_ord::<A::NotNan>(), 0 <= k <= items.len(), accs.len() == items.len() + 1,
+        forall|j: int| 0 <= j < items.len() ==> (if items[j].is_nan_spec() { #[trigger] accs[j + 1] == accs[j] } else { accs[j + 1] is Some && ext_rel(d, accs[j], items[j].not_nan_spec(), accs[j + 1]->Some_0) }),
+    ensures
+        accs[k] is None <==> (accs[0] is None && forall|j: int| 0 <= j < k ==> (#[trigger] items[j]).is_nan_spec()),
+        accs[k] matches Some(m) ==> ((accs[0] == Some(m)) || exists|j: int| 0 <= j < k && !(#[trigger] items[j]).is_nan_spec() && items[j].not_nan_spec() == m),
+        accs[k] matches Some(m) ==> (accs[0] matches Some(f) ==> dle(d, m, f)) && forall|j: int| 0 <= j < k && !(#[trigger] items[j]).is_nan_spec() ==> dle(d, m, items[j].not_nan_spec()),
+    decreases k
+{
+    reveal(lawful_ord);
+    if k > 0 {
+        lemma_ext_trace::<A>(d, items, accs, k - 1);
+        assert(if items[k - 1].is_nan_spec() { accs[(k - 1) + 1] == accs[k - 1] } else { accs[(k - 1) + 1] is Some && ext_rel(d, accs[k - 1], items[k - 1].not_nan_spec(), accs[(k - 1) + 1]->Some_0) });
+        let e = items[k - 1];
+        if !e.is_nan_spec() {
+            let x = e.not_nan_spec();
+            assert(le(x, x));
+            if let Some(m0) = accs[k - 1] {
+                let m1 = accs[k]->Some_0;
+                assert(le(m0, m0));
+                // the new extremum is one of the two and bounds both (order laws: a > b implies b < a)
+                assert(m1 == m0 || m1 == x);
+                assert(dle(d, m1, m0) && dle(d, m1, x));
+                assert forall|j: int| 0 <= j < k - 1 && !(#[trigger] items[j]).is_nan_spec() implies dle(d, m1, items[j].not_nan_spec()) by {
+                    let y = items[j].not_nan_spec();
+                    assert(dle(d, m0, y));
+                    if d { assert(le(y, m0) && le(m0, m1)); } else { assert(le(m1, m0) && le(m0, y)); }
+                }
+                if let Some(f) = accs[0] {
+                    assert(dle(d, m0, f));
+                    if d { assert(le(f, m0) && le(m0, m1)); } else { assert(le(m1, m0) && le(m0, f)); }
+                }
+            }
+        }
+    }
+}
+
+// the postcondition of fold_skipnan as a named predicate (so that it can trigger lemmas about a fold whose closure and
+// result are not named in the source)
+pub open spec fn skipnan_trace<'a, A: MaybeNan, D: Dimension, B, F: FnMut(B, &'a A::NotNan) -> B>(arr: &'a ArrayN<A, D>, f: F, init: B, r: B) -> bool where A::NotNan: 'a {
+    exists|items: Seq<&'a A>, accs: Seq<B>| #![auto] arr.fold_items_ok(items) && accs.len() == items.len() + 1 && accs[0] == init && accs[items.len() as int] == r
+        && forall|k: int| 0 <= k < items.len() ==> skip_step::<A, B, F>(f, accs[k], *items[k], accs[k + 1])
+}
+// the closure keeps the running minimum (d = false) / maximum (d = true)
+pub open spec fn closure_is_ext<'a, T: Ord + 'a, F: FnMut(Option<&'a T>, &'a T) -> Option<&'a T>>(f: F, d: bool) -> bool {
+    forall|acc: Option<&'a T>, x: &'a T, out: Option<&'a T>| #[trigger] call_ensures(f, (acc, x), out) ==> (out matches Some(y) && ext_rel(d, opt_val(acc), *x, *y))
+}
+// what min_skipnan / max_skipnan must return, before the conversion back to `&A`
+pub open spec fn ext_result<A: MaybeNan>(d: bool, s: Seq<A>, r: Option<A::NotNan>) -> bool where A::NotNan: Ord {
+    &&& (forall|k: int| 0 <= k < s.len() ==> (#[trigger] s[k]).is_nan_spec()) ==> r is None
+    &&& (exists|k: int| 0 <= k < s.len() && !(#[trigger] s[k]).is_nan_spec()) ==> (r matches Some(m)
+            && (exists|k: int| 0 <= k < s.len() && !(#[trigger] s[k]).is_nan_spec() && s[k].not_nan_spec() == m)
+            && forall|k: int| 0 <= k < s.len() && !(#[trigger] s[k]).is_nan_spec() ==> dle(d, m, s[k].not_nan_spec()))
+}
+pub open spec fn occurs_in<T>(s: Seq<T>, x: T) -> bool { exists|k: int| 0 <= k < s.len() && #[trigger] s[k] == x }
+pub proof fn lemma_ext_from_trace<'a, A: MaybeNan, D: Dimension, F: FnMut(Option<&'a A::NotNan>, &'a A::NotNan) -> Option<&'a A::NotNan>>(d: bool, arr: &'a ArrayN<A, D>, f: F, init: Option<&'a A::NotNan>, r: Option<&'a A::NotNan>)
+    where A::NotNan: Ord + 'a
+    requires
+        lawful_ord::<A::NotNan>(), skipnan_trace(arr, f, init, r), closure_is_ext(f, d),
+        // the initial accumulator is None, or the not-NaN value of some element
+        init matches Some(x) ==> exists|e: int| 0 <= e < arr@.len() && !(#[trigger] arr@[e]).is_nan_spec() && arr@[e].not_nan_spec() == *x,
+    ensures ext_result::<A>(d, arr@, opt_val(r))
+{
+    let (items, accs) = choose|items: Seq<&'a A>, accs: Seq<Option<&'a A::NotNan>>| #![auto] arr.fold_items_ok(items) && accs.len() == items.len() + 1 && accs[0] == init && accs[items.len() as int] == r
+        && forall|k: int| 0 <= k < items.len() ==> skip_step::<A, Option<&'a A::NotNan>, F>(f, accs[k], *items[k], accs[k + 1]);
+    let n = items.len() as int;
+    let its = Seq::new(items.len(), |k: int| *items[k]);
+    let acv = Seq::new(accs.len(), |k: int| opt_val(accs[k]));
+    assert forall|j: int| 0 <= j < n implies (if its[j].is_nan_spec() { #[trigger] acv[j + 1] == acv[j] } else { acv[j + 1] is Some && ext_rel(d, acv[j], its[j].not_nan_spec(), acv[j + 1]->Some_0) }) by {
+        assert(skip_step::<A, Option<&'a A::NotNan>, F>(f, accs[j], *items[j], accs[j + 1]));
+    }
+    lemma_ext_trace::<A>(d, its, acv, n);
+    let ord = choose|ord: Seq<int>| is_visit_order(ord, arr@.len() as int) && no_repeats(ord) && items.len() == arr@.len() && forall|k: int| 0 <= k < items.len() ==> *(#[trigger] items[k]) == arr@[ord[k]];
+    assert forall|e: int| 0 <= e < arr@.len() implies #[trigger] occurs_in(its, arr@[e]) by {
+        assert(ord.contains(e));
+        let k = choose|k: int| 0 <= k < ord.len() && ord[k] == e;
+        assert(its[k] == arr@[ord[k]]);
+    }
+    assert forall|k: int| 0 <= k < n implies #[trigger] occurs_in(arr@, its[k]) by { assert(its[k] == arr@[ord[k]]); }
+    let s = arr@;
+    let rv = opt_val(r);
+    assert(acv[n] == rv && acv[0] == opt_val(init));
+    if forall|k: int| 0 <= k < s.len() ==> (#[trigger] s[k]).is_nan_spec() {
+        // nothing present: the initial accumulator is None and every visited item is missing
+        assert forall|j: int| 0 <= j < n implies (#[trigger] its[j]).is_nan_spec() by {
+            assert(occurs_in(s, its[j]));
+            let e = choose|e: int| 0 <= e < s.len() && #[trigger] s[e] == its[j];
+        }
+        assert(rv is None);
+    }
+    if exists|k: int| 0 <= k < s.len() && !(#[trigger] s[k]).is_nan_spec() {
+        let k0 = choose|k: int| 0 <= k < s.len() && !(#[trigger] s[k]).is_nan_spec();
+        assert(occurs_in(its, s[k0]));
+        let j0 = choose|j: int| 0 <= j < its.len() && #[trigger] its[j] == s[k0];
+        assert(!its[j0].is_nan_spec());
+        assert(rv is Some);
+        let m = rv->Some_0;
+        // m is the value of an element
+        if acv[0] == Some(m) {
+            assert(exists|e: int| 0 <= e < s.len() && !(#[trigger] s[e]).is_nan_spec() && s[e].not_nan_spec() == m);
+        } else {
+            let j = choose|j: int| 0 <= j < n && !(#[trigger] its[j]).is_nan_spec() && its[j].not_nan_spec() == m;
+            assert(occurs_in(s, its[j]));
+            let e = choose|e: int| 0 <= e < s.len() && #[trigger] s[e] == its[j];
+            assert(!s[e].is_nan_spec() && s[e].not_nan_spec() == m);
+        }
+        assert forall|k: int| 0 <= k < s.len() && !(#[trigger] s[k]).is_nan_spec() implies dle(d, m, s[k].not_nan_spec()) by {
+            assert(occurs_in(its, s[k]));
+            let j = choose|j: int| 0 <= j < its.len() && #[trigger] its[j] == s[k];
+            assert(!its[j].is_nan_spec());
+        }
+    }
 }
